@@ -584,3 +584,236 @@ Example C16_ex_overrun_visible :
   place mem 2 [4; 5; 6; 0] = [9; 9; 4; 5; 6; 0; 7] /\
   ~ untouched_outside mem (place mem 2 [4; 5; 6; 0]) 2 3.
 Proof. exact place_overrun_visible. Qed.
+
+(* ==== round3 c16rp begin ==== *)
+(* ---- audit round 3, top-12 item 10: the crate's READERS in the explicit
+   error-propagation language (IoFault/ReadPropagate.v), and the two hypotheses
+   of the "length really required" clause discharged (IoFault/SpaceLen.v) ---- *)
+From EP Require Import IoFault.ReadPropagate IoFault.SpaceLen.
+
+(* read programs contain functions (`PRead n k`); `req` is their pointwise
+   equality (no functional extensionality is assumed anywhere): an equivalence
+   that run_r respects on every state *)
+Theorem C16_req_run :
+  (forall p, req p p) /\ (forall p q, req p q -> req q p) /\
+  (forall p q r, req p q -> req q r -> req p r) /\
+  (forall p q, req p q -> forall st, run_r p st = run_r q st).
+Proof. exact req_equiv_run. Qed.
+Print Assumptions C16_req_run.
+
+(* agrees_r y p = y is in the propagating fragment and its success path is
+   (pointwise) p: then the explicit interpreter run_y, which hands every Result
+   of read_exact to the program, runs y like run_r runs p - plain source or any
+   LimitedReader state *)
+Theorem C16_agrees_r_run : forall y p, agrees_r y p -> forall st, run_y y st = run_r p st.
+Proof. exact agrees_r_run. Qed.
+Print Assumptions C16_agrees_r_run.
+
+(* a call `Callee::read(reader).map_err(f)?; k` (ycall: the caller sees the
+   callee's Result - Ok(value) / Err(Io) / Err(Len) / Err(Content)): if the callee
+   propagates, the closure f keeps every error what it is and the continuation
+   propagates, the whole does, and its success path is the callee's with k at
+   the Ok leaves *)
+Theorem C16_call_propagates : forall a f k, propagating_r a -> m_ok f ->
+  (forall v, propagating_r (k v)) ->
+  propagating_r (ycall a (yq_call f k)) /\
+  req (strip_r (ycall a (yq_call f k))) (rcall (strip_r a) (fun v => strip_r (k v))).
+Proof. exact call_propagates. Qed.
+Print Assumptions C16_call_propagates.
+
+(* THE reader analogue of C16_crate_writers_propagate: every `read` /
+   `read_limited` of the crate written as the Rust source writes it - each
+   `reader.read_exact(..)?` / `.map_err(Io)?` / `.map_err(map_err)?` a YReadThen
+   whose continuation matches on the Result with the map_err closure as program
+   text, each call of another reader a `ycall` with its own match - is in the
+   propagating fragment and its success path is the Model.v transliteration the
+   other theorems are about: the 14 plain readers (in the order of
+   plain_readers), IpAuthHeader / Ipv6RawExtHeader / Ipv6FragmentHeader ::read
+   (lim = false) and ::read_limited (lim = true), Ipv6Extensions /
+   Ipv4Extensions ::read and ::read_limited *)
+Theorem C16_crate_readers_propagate :
+  Forall2 agrees_r y_plain_readers plain_readers /\
+  (forall lim,
+     agrees_r (y_ip_auth_read lim) (ip_auth_read lim (fun nh => PRet [nh])) /\
+     agrees_r (y_ipv6_raw_ext_read lim) (ipv6_raw_ext_read lim (fun nh => PRet [nh])) /\
+     agrees_r (y_ipv6_frag_read lim) (ipv6_frag_read lim (fun nh => PRet [nh]))) /\
+  (forall lim start,
+     agrees_r (y_x6_read lim start) (x6_read lim start) /\
+     agrees_r (y_x4_read lim start) (x4_read lim start)).
+Proof. exact crate_readers_propagate. Qed.
+Print Assumptions C16_crate_readers_propagate.
+
+(* hence "the operation returns that I/O error", as a theorem about the explicit
+   programs under run_y (C16_readers_fault was about run_r, where `?` is built
+   in): for every data, chunk size, end behaviour and end position j the
+   explicit reader answers the reader's I/O error after exactly j bytes (j inside
+   what the fault-free run consumes) or the fault-free answer, which is never an
+   impossible index / fuel / underflow *)
+Theorem C16_crate_readers_explicit_fault :
+  (forall y d c e j, In y y_plain_readers -> 1 <= c ->
+     let r := run_y y (start_st d c e None) in
+     let rj := run_y y (start_st (take j d) c e None) in
+     good (fst r) /\
+     (j < src_pulled (rs_src (snd r)) -> fst rj = QIo (io_kind e) /\ src_pulled (rs_src (snd rj)) = j) /\
+     (src_pulled (rs_src (snd r)) <= j -> fst rj = fst r /\ src_pulled (rs_src (snd rj)) = src_pulled (rs_src (snd r)))) /\
+  (forall (lim : bool) start lr d c e j, 1 <= c -> lr_read lr <= lr_max lr ->
+     let l := if lim then Some lr else None in
+     (let r := run_y (y_x6_read lim start) (start_st d c e l) in
+      let rj := run_y (y_x6_read lim start) (start_st (take j d) c e l) in
+      good (fst r) /\
+      (j < src_pulled (rs_src (snd r)) -> fst rj = QIo (io_kind e) /\ src_pulled (rs_src (snd rj)) = j) /\
+      (src_pulled (rs_src (snd r)) <= j -> fst rj = fst r /\ src_pulled (rs_src (snd rj)) = src_pulled (rs_src (snd r)))) /\
+     (let r := run_y (y_x4_read lim start) (start_st d c e l) in
+      let rj := run_y (y_x4_read lim start) (start_st (take j d) c e l) in
+      good (fst r) /\
+      (j < src_pulled (rs_src (snd r)) -> fst rj = QIo (io_kind e) /\ src_pulled (rs_src (snd rj)) = j) /\
+      (src_pulled (rs_src (snd r)) <= j -> fst rj = fst r /\ src_pulled (rs_src (snd rj)) = src_pulled (rs_src (snd r))))).
+Proof. exact crate_readers_explicit_fault. Qed.
+Print Assumptions C16_crate_readers_explicit_fault.
+
+(* NOT a defect of the crate: a CALLER that swallows its callee's error
+   (Ipv4Extensions::read with `Err(_) => Ok((Default::default(), start_ip_number))`
+   around IpAuthHeader::read, whose own read_exact calls all propagate) is
+   expressible, is outside the fragment and answers Ok on a source that ended
+   after 14 of the 16 bytes; the crate's form answers UnexpectedEof *)
+Theorem C16_swallowing_call_refuted :
+  ~ propagating_r (swallowing_x4_read AUTH) /\
+  propagating_r (y_x4_read false AUTH) /\
+  (let r := run_y (swallowing_x4_read AUTH) (start_st ex_auth 3 false None) in
+   fst r = QOk [6; 1] /\ src_pulled (rs_src (snd r)) = 16) /\
+  (let r := run_y (swallowing_x4_read AUTH) (start_st (take 14 ex_auth) 3 false None) in
+   fst r = QOk [AUTH; 0] /\ src_pulled (rs_src (snd r)) = 14) /\
+  (let r := run_y (y_x4_read false AUTH) (start_st (take 14 ex_auth) 3 false None) in
+   fst r = QIo KEof /\ src_pulled (rs_src (snd r)) = 14).
+Proof. exact swallow_call_refuted. Qed.
+Print Assumptions C16_swallowing_call_refuted.
+
+(* C16_slice_space without its hypothesis `len enc = LEN`:
+   Ethernet2Header::write_to_slice (LEN = 14) and LinuxSllHeader::write_to_slice
+   (LEN = 16) with the C08 encoders, for every header value whose address arrays
+   have their type's length ([u8;6] x2 / [u8;8]; implied by wf_eth / wf_sll): the
+   encoding has exactly LEN bytes, so Ok iff the slice has LEN bytes, the error
+   names LEN = the length really required and leaves the slice untouched; the C08
+   model of the same Rust function agrees *)
+Theorem C16_eth_write_to_slice : forall h slice, eth_arrays h ->
+  let enc := ETH.eth_to_bytes h in
+  len enc = 14 /\
+  (len slice < 14 ->
+     header_write_to_slice 14 L_ETH enc slice = (SErr (mk_slice_err 14 (len slice) L_ETH 0), slice)) /\
+  (14 <= len slice ->
+     header_write_to_slice 14 L_ETH enc slice = (SOk 14 (len slice - 14), enc ++ drop 14 slice)) /\
+  snd (header_write_to_slice 14 L_ETH enc slice) = snd (spec_slice_write enc slice) /\
+  (fst (spec_slice_write enc slice) = None <-> 14 <= len slice) /\
+  (len slice < 14 -> ETH.eth_write_to_slice slice h = RC.Err RC.ELen) /\
+  (14 <= len slice ->
+     ETH.eth_write_to_slice slice h = RC.Ok (snd (header_write_to_slice 14 L_ETH enc slice), drop 14 slice)).
+Proof. exact eth_write_to_slice_space. Qed.
+Print Assumptions C16_eth_write_to_slice.
+
+Theorem C16_sll_write_to_slice : forall h slice, sll_arrays h ->
+  let enc := SLL.sll_to_bytes h in
+  len enc = 16 /\
+  (len slice < 16 ->
+     header_write_to_slice 16 L_SLL enc slice = (SErr (mk_slice_err 16 (len slice) L_SLL 0), slice)) /\
+  (16 <= len slice ->
+     header_write_to_slice 16 L_SLL enc slice = (SOk 16 (len slice - 16), enc ++ drop 16 slice)) /\
+  snd (header_write_to_slice 16 L_SLL enc slice) = snd (spec_slice_write enc slice) /\
+  (fst (spec_slice_write enc slice) = None <-> 16 <= len slice) /\
+  (len slice < 16 -> SLL.sll_write_to_slice slice h = RC.Err RC.ELen) /\
+  (16 <= len slice ->
+     SLL.sll_write_to_slice slice h = RC.Ok (snd (header_write_to_slice 16 L_SLL enc slice), drop 16 slice)).
+Proof. exact sll_write_to_slice_space. Qed.
+Print Assumptions C16_sll_write_to_slice.
+
+Theorem C16_wf_implies_arrays :
+  (forall h, ETH.wf_eth h = true -> eth_arrays h) /\ (forall h, SLL.wf_sll h = true -> sll_arrays h).
+Proof. exact (conj wf_eth_arrays wf_sll_arrays). Qed.
+Print Assumptions C16_wf_implies_arrays.
+
+(* C16_builder_space without its hypothesis `bcfg_wf`: for EVERY builder
+   configuration c (Builder/Model.v), host endianness, payload and buffer, the
+   C16 configuration `bcfg_of e c payload` (parts = the encoders of C08 / C12 /
+   C15) satisfies bcfg_wf (re-export of Builder/ProofsSinks.v bcfg_of_wf), hence:
+   too short => Space(size), buffer untouched; long enough => the walk's own
+   verdict, on Ok exactly `size` bytes.  For a well-formed configuration (cfg_wf
+   = the type invariants of the crate's structs) `size` is the builder model's
+   final_size and the bytes / verdict are those of build_run. *)
+Theorem C16_builder_space_cfg : forall (e : EP.Checksum.Model.endian) (c : BM.cfg) (payload buffer : bytes),
+  let b := BK.bcfg_of e c payload in
+  let required := final_size b (len payload) in
+  let p := final_write_with_net b payload in
+  bcfg_wf b /\
+  (len buffer < required -> final_write_to_slice b buffer payload = (BSpace required, buffer)) /\
+  (required <= len buffer ->
+     final_write_to_slice b buffer payload =
+       (bres_of required (wprog_verdict p), wprog_bytes p ++ drop (len (wprog_bytes p)) buffer)) /\
+  (wprog_verdict p = VOk -> len (wprog_bytes p) = required) /\
+  len (wprog_bytes p) <= required /\
+  verdict_ok (wprog_verdict p) /\
+  (BSP.cfg_wf c = true ->
+     required = BM.final_size c (len payload) /\
+     wprog_bytes p = snd (BM.build_run e c payload) /\
+     wprog_verdict p = BK.verdict_of (fst (BM.build_run e c payload))).
+Proof. exact builder_space_cfg. Qed.
+Print Assumptions C16_builder_space_cfg.
+
+(* ---- round 3 examples *)
+
+(* the explicit IpHeaders::read (a YReadThen per read_exact, two ycall nodes:
+   Ipv6Header::read_without_version and Ipv6Extensions::read_limited, inside it
+   the calls of Ipv6RawExtHeader / Ipv6FragmentHeader ::read_limited) on the IPv6
+   chain of C16_ex_read_fault_ip: Ok after 56 bytes; a source that ends after 52
+   bytes gives UnexpectedEof / the reader's error after exactly 52 bytes *)
+Example C16_ex_explicit_ip_headers :
+  In y_ip_headers_read y_plain_readers /\
+  (let r := run_y y_ip_headers_read (start_st ex_v6chain 7 false None) in
+   fst r = QOk [17; 17] /\ src_pulled (rs_src (snd r)) = 56) /\
+  (let r := run_y y_ip_headers_read (start_st (take 52 ex_v6chain) 7 false None) in
+   fst r = QIo KEof /\ src_pulled (rs_src (snd r)) = 52) /\
+  (let r := run_y y_ip_headers_read (start_st (take 52 ex_v6chain) 7 true None) in
+   fst r = QIo KOther /\ src_pulled (rs_src (snd r)) = 52).
+Proof. split; [cbn; tauto|]. repeat split; vm_compute; reflexivity. Qed.
+
+(* the Len error of the LimitedReader reaches the caller of the explicit program
+   as the Len error (C16_ex_limited through run_y) *)
+Example C16_ex_explicit_limited :
+  let r := run_y y_ip_headers_read (mk_rstate (mk_fsource ex_v6 5 false 0) None) in
+  fst r = QLen (mk_lenerr 16 8 LS_IPV6_PAYLOAD L_IPV6EXT 40) /\ src_pulled (rs_src (snd r)) = 42.
+Proof. split; vm_compute; reflexivity. Qed.
+
+Definition ex_eth_hdr : ETH.Ethernet2Header :=
+  ETH.Build_Ethernet2Header [1; 2; 3; 4; 5; 6] [7; 8; 9; 10; 11; 12] 2048.
+Example C16_ex_eth_slice :
+  ETH.wf_eth ex_eth_hdr = true /\ eth_arrays ex_eth_hdr /\
+  header_write_to_slice 14 L_ETH (ETH.eth_to_bytes ex_eth_hdr) (repeat 255 13)
+    = (SErr (mk_slice_err 14 13 L_ETH 0), repeat 255 13) /\
+  header_write_to_slice 14 L_ETH (ETH.eth_to_bytes ex_eth_hdr) (repeat 255 15)
+    = (SOk 14 1, [7; 8; 9; 10; 11; 12; 1; 2; 3; 4; 5; 6; 8; 0; 255]).
+Proof. repeat split; vm_compute; reflexivity. Qed.
+
+Definition ex_sll_hdr : SLL.LinuxSllHeader :=
+  SLL.Build_LinuxSllHeader 4 1 6 [1; 2; 3; 4; 5; 6; 0; 0] (SLL.SllEtherType 2048).
+Example C16_ex_sll_slice :
+  SLL.wf_sll ex_sll_hdr = true /\ sll_arrays ex_sll_hdr /\
+  header_write_to_slice 16 L_SLL (SLL.sll_to_bytes ex_sll_hdr) (repeat 255 15)
+    = (SErr (mk_slice_err 16 15 L_SLL 0), repeat 255 15) /\
+  fst (header_write_to_slice 16 L_SLL (SLL.sll_to_bytes ex_sll_hdr) (repeat 255 16)) = SOk 16 0.
+Proof. repeat split; vm_compute; reflexivity. Qed.
+
+(* the hypothesis of C16_slice_space was needed in the parametric model: an
+   encoding of another length is the copy_from_slice panic, not a space error *)
+Example C16_ex_slice_len_needed :
+  header_write_to_slice 14 L_ETH (repeat 1 13) (repeat 255 20) = (SPanic, repeat 255 20).
+Proof. exact slice_len_hyp_needed. Qed.
+
+(* the crate's documentation example (ethernet2 / ipv4 / udp, 8 byte payload):
+   well-formed, size() = 50; 49 bytes => Space(50) and nothing written *)
+Example C16_ex_builder_cfg :
+  BSP.cfg_wf ex_b_cfg = true /\
+  final_size (BK.bcfg_of EP.Checksum.Model.LE ex_b_cfg ex_b_payload) 8 = 50 /\
+  final_write_to_slice (BK.bcfg_of EP.Checksum.Model.LE ex_b_cfg ex_b_payload) (repeat 255 49) ex_b_payload
+    = (BSpace 50, repeat 255 49) /\
+  fst (final_write_to_slice (BK.bcfg_of EP.Checksum.Model.LE ex_b_cfg ex_b_payload) (repeat 255 51) ex_b_payload)
+    = BOk 50.
+Proof. repeat split; vm_compute; reflexivity. Qed.
+(* ==== round3 c16rp end ==== *)
